@@ -6,7 +6,7 @@ import lib
 PROP = "C04"
 MODEL_TARGETS = ["Model/HeaderLine.vo"]
 THEOREMS = ["C04_patterns_current", "C04_parse_all", "C04_main_parse", "C04_curves_parse", "C04_missing_period", "C04_numeric_unit", "C04_digit_unit", "C04_no_double_dot_plain", "C04_param_time", "C04_param_parse", "C04_param_time_sweep", "C04_total_on_period_lines", "C04_name_no_period",
-            "C04_selection_current", "C04_fields_current", "C04_fields_composition_current"]
+            "C04_selection_current", "C04_fields_current", "C04_fields_composition_current", "C04_read_header_line_current"]
 ASSUMPTIONS = [
     "regex ASTs are CPython's own parse of the pattern strings in reader.py (translators/regexes.py), matcher semantics = PyLib/Regex.v (validated against re on every generated line)",
     "\\d is modelled as ASCII digits, \\s as str.isspace(); generated fields avoid non-ASCII digits",
